@@ -268,7 +268,7 @@ func runC13(c *Ctx) {
 	cfgs := []Cfg{{}, {Index: 2, Cache: true}, {Async: 1, Compress: true}}
 	if c.Tier == "thorough" {
 		depth = 4
-		cfgs = append(cfgs, Cfg{Index: 2, Async: 2, MapRev: true}, Cfg{Lower: true, Ext: ".obj"})
+		cfgs = append(cfgs, Cfg{Index: 2, Async: 2, MapRev: true}, Cfg{Lower: true, Ext: ".v1.obj"})
 	}
 	atoms := atomMenu()
 	for _, cfg := range cfgs {
